@@ -1,4 +1,5 @@
 import CryoCat.Model.M3
+import CryoCat.Model.Particle
 import CryoCat.Gen.C14
 /-! C14 — index-level model of `cryomap.rotate`, `get_start_end_indices`, `extract_subvolume`, `crop`,
 `place_object` and `symmetrize_volume` (cryocat/cryomap.py). Mathlib-free, executable at `Int`/`Rat`/`Float`.
@@ -205,14 +206,89 @@ def placeAll (C : Shape) (g : V3 Int → α) (os : Shape) : List (Stamp α) → 
 /-- `np.where(object_map > 0.1, 1.0, 0.0) == 1.0` with the threshold the source has today -/
 def isOn (x : Rat) : Bool := decide (Gen.C14.placeThreshold < x)
 
-/-- start of the stamp of a particle at complete position `pos = num/den` (1-based):
-`coord = pos - 1`, `start = floor(coord - shape/2)` -/
+/-- `np.floor(coord - shape/2)` for a rational coordinate, one axis (`get_start_end_indices`) -/
+def startOfQ (c : Rat) (s : Nat) : Int := (c - (s : Rat) / 2).floor
+
+/-- start of the stamp for complete position `pos` (1-based), what `place_object` computes:
+`coord = pos - 1`, `centre_coord = coord + (shape % 2) / 2`, `start = floor(centre_coord - shape/2)` -/
+def placeStartQ (pos : V3 Rat) (os : Shape) : V3 Int :=
+  ⟨startOfQ (pos.x - (Gen.C14.placeOffset : Rat) + ((os.nx % 2 : Nat) : Rat) / 2) os.nx,
+   startOfQ (pos.y - (Gen.C14.placeOffset : Rat) + ((os.ny % 2 : Nat) : Rat) / 2) os.ny,
+   startOfQ (pos.z - (Gen.C14.placeOffset : Rat) + ((os.nz % 2 : Nat) : Rat) / 2) os.nz⟩
+
+/-- what the STATEMENT asks for: the template's centre voxel `⌊s/2⌋` on the voxel `⌊pos - 1⌋` that holds the 0-based
+complete position, i.e. the stamp starts at `⌊pos - 1⌋ - ⌊s/2⌋` -/
+def specStartQ (pos : V3 Rat) (os : Shape) : V3 Int :=
+  ⟨(pos.x - 1).floor - ((os.nx / 2 : Nat) : Int), (pos.y - 1).floor - ((os.ny / 2 : Nat) : Int), (pos.z - 1).floor - ((os.nz / 2 : Nat) : Int)⟩
+
+/-- the window start `place_object` used before the repair of defect D33: `floor(pos - 1 - shape/2)` without the half voxel
+of odd sizes (kept for the regression witness `old_place_start_odd_one_voxel_low`) -/
+def oldPlaceStartQ (pos : V3 Rat) (os : Shape) : V3 Int :=
+  ⟨startOfQ (pos.x - 1) os.nx, startOfQ (pos.y - 1) os.ny, startOfQ (pos.z - 1) os.nz⟩
+
+/-- … for a position given as three numerators over one denominator (`pos = num/den`, the mask-driven driver path) -/
 def placeStart (num : V3 Int) (den : Nat) (os : Shape) : V3 Int :=
-  startOf3 ⟨num.x - Gen.C14.placeOffset * den, num.y - Gen.C14.placeOffset * den, num.z - Gen.C14.placeOffset * den⟩ den os
+  placeStartQ ⟨mkRat num.x den, mkRat num.y den, mkRat num.z den⟩ os
 
 /-- the stamp of a particle with cube orientation `R`, position `num/den`, colour `col` for template `tmpl` -/
 def cubeStamp (os : Shape) (tmpl : V3 Int → Rat) (R : M3 Int) (num : V3 Int) (den : Nat) (col : α) : Stamp α :=
   ⟨fun t => isOn (rotateBy R os tmpl t), placeStart num den os, col⟩
+
+/-! ### the particle list: the accessors `place_object` relies on, and `shift_positions`
+
+`Motl.get_angles`, `Motl.get_coordinates`, `Motl.get_rotations` and `Motl.shift_positions` (cryocat/cryomotl.py) on the
+shared row type `Particle`.  The trigonometric part is a service `cs : α → α × α` (cosine and sine of an angle given in
+degrees): `Float.cos`/`Float.sin` in the driver, an abstract pair with `c² + s² = 1` in the theorems; for right-angle
+Euler angles the exact integer matrix `cubeZxz` takes its place (`rowCube`). -/
+section motl
+
+/-- `Motl.get_angles()`: the columns phi, theta, psi of every row — in this order — as the zxz Euler triple -/
+def rowAngles (p : Particle α) : α × α × α := (p.phi, p.theta, p.psi)
+def getAngles (m : Motl α) : List (α × α × α) := m.map rowAngles
+
+/-- `Motl.get_coordinates()`: the complete position `x + shift_x, y + shift_y, z + shift_z` of every row -/
+def rowCoords [Add α] (p : Particle α) : V3 α := ⟨p.x + p.shift_x, p.y + p.shift_y, p.z + p.shift_z⟩
+def getCoordinates [Add α] (m : Motl α) : List (V3 α) := m.map rowCoords
+
+/-- `rot.from_euler("zxz", [phi, theta, psi], degrees=True)` of one row -/
+def rowRotation [OfNat α 0] [OfNat α 1] [Neg α] [Add α] [Mul α] (cs : α → α × α) (p : Particle α) : M3 α :=
+  zxz (cs p.phi).1 (cs p.phi).2 (cs p.theta).1 (cs p.theta).2 (cs p.psi).1 (cs p.psi).2
+/-- `Motl.get_rotations()` -/
+def getRotations [OfNat α 0] [OfNat α 1] [Neg α] [Add α] [Mul α] (cs : α → α × α) (m : Motl α) : List (M3 α) := m.map (rowRotation cs)
+
+/-- `shift_coords(row)` of `Motl.shift_positions(shift)`: the shift vector is carried by the row's orientation and added to
+the shift columns; nothing else changes -/
+def shiftRow [OfNat α 0] [OfNat α 1] [Neg α] [Add α] [Mul α] (cs : α → α × α) (v : V3 α) (p : Particle α) : Particle α :=
+  let w := (rowRotation cs p).apply v
+  { p with shift_x := p.shift_x + w.x, shift_y := p.shift_y + w.y, shift_z := p.shift_z + w.z }
+def shiftPositions [OfNat α 0] [OfNat α 1] [Neg α] [Add α] [Mul α] (cs : α → α × α) (v : V3 α) (m : Motl α) : Motl α := m.map (shiftRow cs v)
+
+/-- an angle in degrees that is a whole number of quarter turns (any sign, any number of full turns) -/
+def quarterOf (deg : Rat) : Option Nat :=
+  if deg.den = 1 ∧ deg.num % 90 = 0 then some ((deg.num / 90) % 4).toNat else none
+
+/-- the exact orientation of a row whose three Euler angles are right angles -/
+def rowCube (p : Particle Rat) : Option (M3 Int) :=
+  (quarterOf p.phi).bind fun a => (quarterOf p.theta).bind fun b => (quarterOf p.psi).map fun c => cubeZxz a b c
+
+/-- `shift_coords` for such a row and an integer shift vector (exact) -/
+def shiftRowCube (v : V3 Int) (p : Particle Rat) : Option (Particle Rat) :=
+  (rowCube p).map fun R =>
+    let w := R.apply v
+    { p with shift_x := p.shift_x + (w.x : Rat), shift_y := p.shift_y + (w.y : Rat), shift_z := p.shift_z + (w.z : Rat) }
+
+/-- the loop body of `place_object` for one row: orientation from `get_rotations`, position from `get_coordinates`,
+colour = the row's value of the colouring field -/
+def rowStamp (os : Shape) (tmpl : V3 Int → Rat) (feature : Field) (p : Particle Rat) : Option (Stamp Rat) :=
+  (rowCube p).map fun R => ⟨fun t => isOn (rotateBy R os tmpl t), placeStartQ (rowCoords p) os, p.get feature⟩
+
+/-- `place_object(template(s), motl, …, feature_to_color=feature)` for a list whose Euler angles are right angles;
+`tmplOf i` is the template of row `i` (constant for a single template); `none` = an angle is not a right angle -/
+def placeMotl (C : Shape) (g : V3 Int → Rat) (os : Shape) (tmplOf : Nat → V3 Int → Rat) (feature : Field) (m : Motl Rat) :
+    Option (V3 Int → Rat) :=
+  (m.zipIdx.mapM fun pi => rowStamp os (tmplOf pi.2) feature pi.1).bind (placeAll C g os)
+
+end motl
 
 /-! ### `symmetrize_volume` -/
 
